@@ -12,6 +12,7 @@
 #include <unordered_set>
 #include <algorithm>
 #include <chrono>
+#include <regex>
 #include <fcntl.h>
 #include <poll.h>
 #include <signal.h>
@@ -35,6 +36,7 @@ struct ResHdr {
     uint32_t done;
     char cls[64];
     char msg[2048];
+    char tag[160];
     uint64_t steps, switches, preempts, sim_ns, hash, sig_hash, choices;
     uint32_t nfibers, window, strategy, tso, faults_on, P;
     uint32_t n_faults; NamedCount faults[32];
@@ -88,13 +90,14 @@ static int zygote_main() {
         }
         int st = 0;
         while (waitpid(pid, &st, 0) < 0 && errno == EINTR) {}
-        memset(&rh, 0, offsetof(ResHdr, n_probes));
+        memset(&rh, 0, sizeof rh);
         rh.magic = RES_MAGIC;
         rh.exit_code = WIFEXITED(st) ? WEXITSTATUS(st) : -1;
         rh.sig = WIFSIGNALED(st) ? WTERMSIG(st) : 0;
         rh.done = sh->done;
         memcpy(rh.cls, sh->cls, sizeof rh.cls);
         memcpy(rh.msg, sh->msg, sizeof rh.msg);
+        memcpy(rh.tag, sh->tag, sizeof rh.tag); rh.tag[sizeof rh.tag - 1] = 0;
         rh.steps = sh->steps; rh.switches = sh->switches; rh.preempts = sh->preempts; rh.sim_ns = sh->sim_ns;
         rh.hash = sh->hash; rh.sig_hash = sh->sig_hash; rh.choices = sh->choices;
         rh.nfibers = sh->nfibers; rh.window = sh->window; rh.strategy = sh->strategy; rh.tso = sh->tso;
@@ -133,6 +136,17 @@ struct Result {
 };
 
 static bool contains(const std::string& s, const char* t) { return s.find(t) != std::string::npos; }
+
+static std::string crash_message(const Result& r) {
+    // the informative part of a sanitizer / assertion report, prefixed with the scenario's context tag
+    const std::string& e = r.err;
+    size_t pos = e.find("ERROR: AddressSanitizer");
+    if (pos == std::string::npos) pos = e.find("runtime error:");
+    if (pos == std::string::npos) pos = e.find("Assertion ");
+    if (pos == std::string::npos) pos = e.find("terminate called");
+    std::string body = pos == std::string::npos ? e.substr(e.size() > 1200 ? e.size() - 1200 : 0) : e.substr(pos, 1200);
+    return (r.h.tag[0] ? "[" + std::string(r.h.tag) + "] " : std::string()) + body;
+}
 
 std::string Result::cls() const {
     if (h.done) return h.cls;
@@ -220,7 +234,7 @@ static std::string result_json(const Job& j, const Result& r, bool with_arrays) 
     char b[512];
     snprintf(b, sizeof b, "\"seed\":%llu,\"sched_seed\":%llu,\"class\":\"%s\",", (unsigned long long)j.seed, (unsigned long long)j.sched_seed, jesc(r.cls()).c_str());
     s += b;
-    s += "\"message\":\"" + jesc(r.h.done ? std::string(r.h.msg) : r.err.substr(r.err.size() > 1500 ? r.err.size() - 1500 : 0)) + "\",";
+    s += "\"message\":\"" + jesc(r.h.done ? std::string(r.h.msg) : crash_message(r)) + "\",";
     snprintf(b, sizeof b, "\"steps\":%llu,\"switches\":%llu,\"preempts\":%llu,\"sim_ns\":%llu,\"event_hash\":\"%016llx\",\"sig_hash\":\"%016llx\",\"choices\":%llu,"
              "\"nfibers\":%u,\"window\":%u,\"strategy\":\"%s\",\"tso\":%u,\"faults_on\":%u,\"P\":%u,\"exit\":%d,\"signal\":%d",
              (unsigned long long)r.h.steps, (unsigned long long)r.h.switches, (unsigned long long)r.h.preempts, (unsigned long long)r.h.sim_ns,
@@ -262,6 +276,22 @@ static int stripe_main(const char* self, int argc, char** argv) {
     std::string prefix = argv[9];
     uint32_t extra_flags = argc > 10 ? (uint32_t)strtoul(argv[10], nullptr, 10) : 0;
     int max_fail = argc > 11 ? atoi(argv[11]) : 3;
+    // known findings (class <TAB> regex per line): counted, one sample kept, never stop the stripe
+    std::vector<std::pair<std::string, std::regex>> known;
+    if (argc > 12) {
+        FILE* kf = fopen(argv[12], "r");
+        char kl[4096];
+        while (kf && fgets(kl, sizeof kl, kf)) {
+            char* tab = strchr(kl, '\t');
+            if (!tab) continue;
+            *tab = 0;
+            std::string re(tab + 1);
+            while (!re.empty() && (re.back() == '\n' || re.back() == '\r')) re.pop_back();
+            try { known.emplace_back(kl, std::regex(re)); } catch (...) {}
+        }
+        if (kf) fclose(kf);
+    }
+    std::set<std::string> known_seen;
     Zygote z;
     if (!z.start(self, prefix + ".err")) { fprintf(stderr, "cannot start zygote\n"); return 2; }
     std::map<std::string, uint64_t> classes, faults, probes_runs, probes_hits, strat;
@@ -279,7 +309,6 @@ static int stripe_main(const char* self, int argc, char** argv) {
         if (!z.run(j, nullptr, nullptr, r)) { fprintf(stderr, "zygote died\n"); return 2; }
         ++runs;
         std::string c = r.cls();
-        classes[c]++;
         steps += r.h.steps; switches += r.h.switches; preempts += r.h.preempts; sim_ns += r.h.sim_ns;
         if (r.h.tso) ++tso_runs;
         if (r.h.faults_on) ++fault_runs;
@@ -294,13 +323,23 @@ static int stripe_main(const char* self, int argc, char** argv) {
             Result rr = r; if (rr.dec.size() > 40) rr.dec.resize(40); rr.tape.clear();
             samples.push_back(result_json(j, rr, true));
         }
+        bool counted = false;
         if (c != "ok") {
             if (c == "budget") { if (inconclusive.size() < 5) inconclusive.push_back(result_json(j, r, false)); }
             else {
-                if (failures.size() < 50) { Result rr = r; rr.dec.clear(); failures.push_back(result_json(j, rr, true)); }
-                if (++nfail >= max_fail) break;
+                bool is_known = false;
+                std::string msg = r.h.done ? std::string(r.h.msg) : crash_message(r);
+                for (auto& k : known) if (k.first == c && std::regex_search(msg, k.second)) { is_known = true; break; }
+                if (is_known) {
+                    classes["known:" + c]++; counted = true;
+                    if (known_seen.insert(c + msg.substr(0, 80)).second && failures.size() < 50) { Result rr = r; rr.dec.clear(); failures.push_back(result_json(j, rr, true)); }
+                } else {
+                    if (failures.size() < 50) { Result rr = r; rr.dec.clear(); failures.push_back(result_json(j, rr, true)); }
+                    if (++nfail >= max_fail) { classes[c]++; break; }
+                }
             }
         }
+        if (!counted) classes[c]++;
     }
     z.stop();
     double wall = now_s() - t0;
